@@ -95,7 +95,8 @@ NP_CALLS = [
     ('column_stack', [([1, 2], [3.5, 4])]), ('append', [[[1, 2]], [[3, 4.5]]], dict(axis=0)), ('delete', [[1, 2, 3, 4], 2]),
     ('array_equal', [[1, 2], [1, 2]]), ('array_equal', [[1, 2], [1, 3]]), ('array_equal', [[], [1]]),
     ('searchsorted', [[1, 3, 5, 7], [3, 6]]), ('zeros', [3]), ('arange', [4]), ('full', [3, True]),
-    ('corrcoef', [[1, 2, 3, 5], [2, 1, 4.5, 3]]), ('isclose', [[1, 2.000001, 3], [1.00000001, 2, 3.1]]),
+    ('corrcoef', [[1, 2, 3, 5], [2, 1, 4.5, 3]]), ('isclose', [[1, 2.000001, 3], [1.00000001, 2, 3.1]]), ('ones', [3]), ('clip', [[-1, 0.5, 3], 0, 1]), ('sign', [[-2, 0, 3.5]]), ('floor', [[-1.5, 2.25]]),
+    ('ceil', [[-1.5, 2.25]]), ('flip', [[1, 2, 3.5]]), ('count_nonzero', [[0, 2, 0, 1.5]]), ('vstack', [([1, 2], [3, 4.5])]), ('linspace', [0, 1, 5]),
 ]
 
 
